@@ -4,6 +4,7 @@ C03 — the approx. marker and digit truncation never misstate a value.
 import FendModel.Model.Root
 import FendModel.Proofs.Format
 import FendModel.Proofs.FormatLayout
+import FendModel.Proofs.BigUintRoot
 import Mathlib.Tactic.Ring
 import Mathlib.Tactic.Linarith
 import Mathlib.Tactic.FieldSimp
@@ -264,5 +265,33 @@ theorem flag_eq (t : FExpr) : flag t = allExact t := by
 example : rootNat 27 3 = some (3, true) ∧ rootNat 28 3 = some (3, false) ∧ rootNat (10 ^ 40) 2 = some (10 ^ 20, true) := by
   refine ⟨?_, ?_, ?_⟩ <;> decide +kernel
 example : flag (.op2 true (.leaf true) (.op1 false (.leaf true))) = false := by decide
+
+/-- the limb-level `BigUint::root_n` computes what the bisection on natural numbers computes (value and flag), for every
+limb representation -/
+theorem biguint_root_refines (self n : BigUint) (hs : self.WF) (hn : n.WF) (hn1 : 1 ≤ BigUint.val n) (hnB : BigUint.val n < B) :
+    match Root.rootNat (BigUint.val self) (BigUint.val n) with
+    | some (g, e) => ∃ gb, BigUint.rootN self n = .ok (gb, e) ∧ BigUint.val gb = g ∧ gb.WF
+    | none => BigUint.rootN self n = .error .other := BigUint.rootN_refines self n hs hn hn1 hnB
+
+/-- hence, on limb vectors: the returned value is the floor of the n-th root, and the result is flagged exact exactly when
+the radicand is a perfect n-th power -/
+theorem biguint_root_exact_iff (self n g : BigUint) (e : Bool) (hs : self.WF) (hn : n.WF) (hn1 : 1 ≤ BigUint.val n) (hnB : BigUint.val n < B)
+    (h : BigUint.rootN self n = .ok (g, e)) :
+    ((e = true → BigUint.val g ^ BigUint.val n = BigUint.val self) ∧
+     (e = false → BigUint.val g ^ BigUint.val n < BigUint.val self ∧ BigUint.val self < (BigUint.val g + 1) ^ BigUint.val n)) ∧
+    (e = true ↔ ∃ k, k ^ BigUint.val n = BigUint.val self) := by
+  have hr := BigUint.rootN_refines self n hs hn hn1 hnB
+  cases hroot : Root.rootNat (BigUint.val self) (BigUint.val n) with
+  | none => rw [hroot] at hr; simp only at hr; rw [hr] at h; cases h
+  | some ge =>
+    obtain ⟨g', e'⟩ := ge
+    rw [hroot] at hr
+    obtain ⟨gb, hgb, hv, _⟩ := hr
+    rw [hgb] at h
+    injection h with h
+    injection h with h1 h2
+    subst h1; subst h2
+    rw [← hv] at hroot
+    exact ⟨rootNat_spec _ _ hn1 _ _ hroot, rootNat_exact_iff _ _ hn1 _ _ hroot⟩
 
 end Fend.C03
